@@ -1,6 +1,7 @@
 (* C03 - grouping is purely structural and yields a well-formed token tree. *)
 From SqlModel Require Import Base PyStr Lexer SplitDefs Splitter SplitFacts Node Inv Passes GroupFacts.
-From SqlModel.Inst Require Import Cur ParseFacts.
+From SqlModel Require Import TotalDefs.
+From SqlModel.Inst Require Import Cur ParseFacts TotalParse.
 
 (* the leaves of the parsed statements, read left to right, are the lexer's tokens of those
    statements: same values, same types except that a token may have been re-typed to Operator;
@@ -46,3 +47,9 @@ Proof.
     replace (Nat.ltb off (idx + length (snd tk))) with false by (symmetry; apply Nat.ltb_ge; lia).
     rewrite andb_false_r. split; [exact A|]. cbn [flat_map]. rewrite app_length. lia.
 Qed.
+
+(* every group of every parsed statement is non-empty (no pass ever creates an empty group) *)
+Theorem C03_nonempty : forall t stmts, cur_parse t = Ok stmts ->
+  Forall (fun n => nonempty_groups n = true) stmts.
+Proof. exact cur_parse_nonempty. Qed.
+Print Assumptions C03_nonempty.
